@@ -6,7 +6,8 @@ COQ_TARGET = "C12"
 TRUSTED = ["the Days table (bit_rep, hex_rep, weekday) is regenerated from the sources into Gen/Extracted.v on every run"]
 ASSUMPTIONS = ["odd masks 3..253 are accepted by the code and decode ignoring bit 0; the property does not forbid it: not judged"]
 RULE = ("exhaustive in both tiers: the 7 single days, all 127 non-empty subsets as a set and as a sequence in sorted and in shuffled "
-        "order, the empty set / list / tuple, every sequence of length <= 3 with repetition allowed (399), all 256 masks, then "
+        "order, the empty set / list / tuple, every sequence of length <= 3 with repetition allowed (399), sequences of length 2..21 (constant, one repeated day, a shuffled full week, "
+        "a full week plus one day, random), all 256 masks plus values beyond one byte and negative ones, then "
         "decode(encode(subset)) for all 127; non-trivial = distinct non-empty inputs")
 REQUIREMENT = ("encode = two hex digits of the sum of 2^(weekday+1) over the days (bit 0 never set); duplicates and empty input raise; "
                "decode(mask) = the days whose bit is set, for even masks in 2..254; masks < 2 or > 254 raise")
@@ -33,12 +34,19 @@ def run(tier, rnd, out):
         cs.append((1, l)); cs.append((2, l)); sh = l[:]; rnd.shuffle(sh); cs.append((2, sh))
     cs += [(1, []), (2, [])]
     for L in (1, 2, 3): cs += [(2, list(t)) for t in itertools.product(range(7), repeat=L)]
+    for L in list(range(2, 11)) + [14, 21]:                      # longer sequences: constant, one repeated day, a full week and more
+        for d in range(7): cs.append((2, [d] * L))
+        for _ in range(12 if tier == "quick" else 200):
+            cs.append((2, [rnd.randrange(7) for _ in range(L)]))
+            base = rnd.sample(range(7), min(L - 1, 7)); seq = base + [rnd.choice(base)] * (L - len(base)); rnd.shuffle(seq); cs.append((2, seq))
+    for _ in range(30):
+        week = list(range(7)); rnd.shuffle(week); cs.append((2, week)); cs.append((2, week + [rnd.randrange(7)])); cs.append((2, week * 2))
     cases = [{"form": f, "days": l} for f, l in cs]
     io = [enc_impl(f, l) for f, l in cs]
     mo = lib.run_model([lib.req("weekdays", f, l) for f, l in cs]); ex = lib.run_model([lib.req("weekdays_spec", f, l) for f, l in cs])
     lib.differential(out, "encode", cases, io, mo, ex, lambda c: "weekdays_to_hexadecimal(%s of %s)" % (["single day", "set", "sequence"][c["form"]], c["days"]),
                      nontrivial=lambda c: len(c["days"]) > 0, sample=lambda c: c, classify=lambda c, i: ["single", "set", "sequence"][c["form"]] + "/" + i.split(" ")[0])
-    ms = list(range(256)) + [256, 257, 1000, 65535]
+    ms = list(range(256)) + [256, 257, 258, 510, 511, 512, 1000, 65535, 65536 + 2, 2 ** 32 + 4, -1, -2, -254, -256]
     io = [dec_impl(n) for n in ms]; mo = lib.run_model([lib.req("bitsum", n) for n in ms]); ex = lib.run_model([lib.req("bitsum_spec", n) for n in ms])
     lib.differential(out, "decode", [{"mask": n} for n in ms], io, mo, ex, lambda c: "bit_summary_to_days(%d)" % c["mask"],
                      sample=lambda c: c, classify=lambda c, i: "mask/" + i.split(" ")[0])
